@@ -515,7 +515,8 @@ Section Step.
                   | _ => num_result (num_pow an bn)
                   end
               | NCplx _ _ _ _ =>
-                  if num_is_exact an then Ok (EPow a b) else num_result (num_pow an bn)
+                  if num_is_exact an then (if num_is_one an then Ok e_one else Ok (EPow a b))
+                  else num_result (num_pow an bn)
               | _ => num_result (num_pow an bn)
               end
           | EMul sc sd =>
